@@ -603,6 +603,16 @@ func (e *Engine) invoke(st *State, fr *Frame, res ssa.Value, c *ssa.CallCommon, 
 			}
 		}
 	}
+	// closed world with a single implementer: the call can only go there
+	if recv.K == KIface && e.P.closedWorld(c.Value.Type()) {
+		if impls := e.P.implementers(c.Value.Type()); len(impls) == 1 && e.P.ifaceContract(c.Value.Type(), mname) == nil {
+			if m := e.P.prog.LookupMethod(impls[0], c.Method.Pkg(), c.Method.Name()); m != nil {
+				st.assume(eq(recv.X[0], e.P.reg.tagOf(impls[0])))
+				rv := e.unboxIface(st, recv, impls[0])
+				return e.callStatic(st, fr, res, m, nil, append([]Val{rv}, args...), c, pos)
+			}
+		}
+	}
 	// interface-level contract
 	if con := e.P.ifaceContract(c.Value.Type(), mname); con != nil {
 		e.applyIfaceContract(st, fr, res, c, con, recv, args, pos)
@@ -933,7 +943,9 @@ func (e *Engine) appendOp(st *State, s, extra Val, rt types.Type) Val {
 				inner = sto(inner, "(bvadd (bvadd "+s.X[0]+" "+s.X[1]+") "+bvLit(i, 64)+")", src[k])
 			}
 		} else {
-			old := inner
+			// (ground array terms are named so that read-over-write is settled outside the quantifiers)
+			old := e.fresh("append.old", "(Array (_ BitVec 64) "+l.Sort+")")
+			st.assume(eq(old, inner))
 			inner = e.fresh("append.elems", "(Array (_ BitVec 64) "+l.Sort+")")
 			// the first len(s) elements are kept; the n new ones are copies of the source
 			e.nfresh++
@@ -942,9 +954,12 @@ func (e *Engine) appendOp(st *State, s, extra Val, rt types.Type) Val {
 			st.assume(fmt.Sprintf("(forall ((%s (_ BitVec 64))) (=> (and (bvsle %s %s) (bvslt %s (bvadd %s %s))) (= (select %s %s) (select %s %s))))",
 				q, lo, q, q, lo, s.X[1], inner, q, old, q))
 			if extra.K == KSlice {
-				srcArr := sel(arr, extra.T)
-				st.assume(fmt.Sprintf("(forall ((%s (_ BitVec 64))) (=> (and (bvsle #x0000000000000000 %s) (bvslt %s %s)) (= (select %s (bvadd (bvadd %s %s) %s)) (select %s (bvadd %s %s)))))",
-					q, q, q, n, inner, lo, s.X[1], q, srcArr, extra.X[0], q))
+				srcArr := e.fresh("append.src", "(Array (_ BitVec 64) "+l.Sort+")")
+				st.assume(eq(srcArr, sel(arr, extra.T)))
+				// (indexed by the destination position so that any read of the new array triggers it)
+				start := "(bvadd " + lo + " " + s.X[1] + ")"
+				st.assume(fmt.Sprintf("(forall ((%s (_ BitVec 64))) (=> (and (bvsle %s %s) (bvslt %s (bvadd %s %s))) (= (select %s %s) (select %s (bvadd %s (bvsub %s %s))))))",
+					q, start, q, q, start, n, inner, q, srcArr, extra.X[0], q, start))
 			}
 		}
 		st.heap[key] = sto(arr, base, inner)
@@ -1047,6 +1062,13 @@ func (e *Engine) applyContract(st *State, fr *Frame, res ssa.Value, callee *ssa.
 		g := e.evalSpecBool(st, st, c.Expr, env)
 		if c.Optional && len(e.specErrors) > nerr {
 			e.specErrors, e.notes = e.specErrors[:nerr], e.notes[:nnote]
+			continue
+		}
+		if c.Tmpl && c.Optional && len(c.Props) > 0 && !e.sharesProp(c.Props) {
+			// the optional precondition of a sweep template belongs to another property's sweep (it says
+			// what that sweep assumes about receivers); the function verified here relies on none of its
+			// postconditions for this clause, so it is not its obligation
+			st.assume(g)
 			continue
 		}
 		if fr != nil && (fr.fn == e.fn || e.wantSafe) {
@@ -1238,6 +1260,23 @@ func (e *Engine) havocLoc(st, pre *State, loc SExpr, env *SpecEnv) {
 			}
 			e.havocEffect(st, &Effect{All: true, Except: pfx, Keys: map[string]bool{}}, "assigns foreign")
 			return
+		}
+		// a package-level variable of the callee's package
+		if env.pkg != nil {
+			if v, ok := env.pkg.Scope().Lookup(x.Name).(*types.Var); ok {
+				if g := e.P.globalFor(v); g != nil {
+					e.P.mu.Lock()
+					e.P.mutGlobal[g] = true
+					e.P.mu.Unlock()
+					pfx := e.globalKey(g) + ":"
+					for _, key := range sortedKeys(st.heap) {
+						if strings.HasPrefix(key, pfx) {
+							st.heap[key] = e.fresh(key, e.keySort[key])
+						}
+					}
+					return
+				}
+			}
 		}
 	case SSel:
 		if pt, addr, ok := e.structAddr(pre, pre, x.X, env); ok {
@@ -1718,6 +1757,25 @@ func (e *Engine) wantsDispatch(m string) bool {
 	for _, c := range e.con.get("dispatch") {
 		for _, a := range c.Args {
 			if a == m {
+				return true
+			}
+		}
+	}
+	return false
+}
+
+// sharesProp: does the verification under way serve one of these properties?
+func (e *Engine) sharesProp(ps []string) bool {
+	mine := e.props
+	if e.con != nil && len(e.con.Props) > 0 {
+		mine = append(append([]string{}, mine...), e.con.Props...)
+	}
+	if len(mine) == 0 {
+		return true
+	}
+	for _, a := range mine {
+		for _, b := range ps {
+			if a == b {
 				return true
 			}
 		}
